@@ -6,8 +6,9 @@
    whose fields are COPIED from the emitted L1 event of sequence k - any k, any number of
    times, any sender, any hook, including hook transactions that carry withdrawals); Propose (honest root over any event range) / Delete; Claim m
    (the claim built from the RECORDED withdrawal m with [Merkle.prove] at the position found by its sequence); block time and height
-   are free per L1 step.  Not system steps (see docs/C08.md): CreateBridge and the L1
-   role/config updates, ExecuteMessages-wrapped L2 messages. *)
+   are free per L1 step; Admin1 (every L1 role / config / params update, batch record and IBC
+   environment change, for any bridge).  Not system steps (see docs/C08.md): CreateBridge
+   (fresh states may contain any bridge configs), ExecuteMessages-wrapped L2 messages. *)
 From stdpp Require Import gmap numbers list.
 From Coq Require Import ZArith.
 Require Import Model.Bytes Model.Bank Model.Hashes Model.Merkle Model.System.
